@@ -34,9 +34,26 @@ def check_X1(ctx, facts, cfg):
     if not sp:
         ctx.bad('C14.X1', cfg + '|send_parts', '', 'Channel::send_parts not found (fail closed)')
         return
+    cg = CallGraph(facts)
     for body in sp:
         tc = [(b, t) for b, t in body.calls() if cname(t) in TRANSPORT]
         cyc = [b for b, t in tc if in_cycle(body, b)]
+        if not tc:
+            # the wire call behind a private transport trait / helper: every workspace body send_parts reaches (a few levels) is
+            # searched, and the chain of calls leading there must not sit in a loop either
+            reach = [rb for rb in cg.reach([body], bound=4) if rb.crate == 'datacake_rpc' and rb is not body]
+            for rb in reach:
+                for b2, t2 in rb.calls():
+                    if cname(t2) in TRANSPORT:
+                        tc.append((b2, t2))
+                        if in_cycle(rb, b2):
+                            cyc.append(b2)
+            # calls from send_parts into that region must themselves not be in a loop
+            names_ = {rb.name for rb in reach if any(cname(t2) in TRANSPORT for _b2, t2 in rb.calls())}
+            for b1, t1 in body.calls():
+                res_ = strip_generics(t1.get('resolved') or t1.get('callee') or '')
+                if (res_ in names_ or res_ + '::{closure#0}' in names_) and in_cycle(body, b1):
+                    cyc.append(b1)
         good = len(tc) == 1 and not cyc
         ctx.ob('C14.X1', cfg + '|transport-call', good, site(body, tc[0][1]['cs'] if tc else None),
                'one transport call (%s), outside any loop' % cname(tc[0][1]) if good else
